@@ -24,6 +24,10 @@ CHECKS = {
         text="Bounded symbolic proof over the real CorrFunc.sample / landy_szalay / davis_peebles / RedshiftData.from_corrdata / normalised(): for every non-empty subset of {dr,rd,rr} x {auto,cross} and every real-valued content, value and each jackknife sample equal the documented formula built from explicit totals (auto normalisation = half the squared total weight); n(z)^2 dz^2 w_ss w_pp = w_sp^2 with the sign of w_sp; integral after normalisation = 1.",
         note=_REAL + " Denominators non-zero / radicands positive (side conditions); sqrt is an axiomatised uninterpreted function; normalised(target=...) and NaN handling outside the claim; RR-without-DR is not covered by the documented formula (error accepted).",
         technique="symbolic execution of real numpy code on object arrays of z3 reals + SMT (z3 nlsat) discharge per path"),
+    "C15": dict(level="other", ref="DESIGN.md 4/C15",
+        text="Bounded symbolic proof over the real configuration classes: for symbolic zmin/zmax/scale limits/exponent/custom edges and every engine-enumerated combination of method, closed side, unit, cosmology (default by name / non-default object) and modified parameter set: requested number of strictly increasing bins spanning exactly [zmin,zmax] with uniform spacing in the method's variable; angle = r*factor/D(z) for all 8 units; invalid parameters raise; modify == create(merged) attribute-wise and under ==, original untouched; equal parameters compare equal; dict round trip; a user CustomCosmology is accepted.",
+        note=_REAL + " astropy (units, z_at_value, named cosmologies) replaced by uninterpreted D_C (strictly increasing, D_C(0)=0), D_A=D_C/(1+z), inverse z_at_value, ln/exp; float identity of regenerated edges is outside the claim; replays use real astropy cosmologies.",
+        technique="symbolic execution of real Python/numpy code with z3 reals and axiomatised uninterpreted functions; finite options as solver choices"),
     "C17": dict(level="other", ref="DESIGN.md 4/C17",
         text="Bounded symbolic proof over the real container operators (+, sum(), *, ==), Indexer (int / slice / iteration, selection enumerated by the solver) and constructor shape checks: element-wise sums/products, invariance of sampled estimates under scaling, equality <=> structural equality, selections equal numpy slicing and commute with summation and sampling, malformed shapes/operands raise.",
         note=_REAL + " Non-contiguous fancy selections outside the claim.",
@@ -34,4 +38,4 @@ CHECKS = {
         technique="symbolic execution of real numpy code on object arrays of z3 reals (forking comparisons) + SMT discharge per path"),
 }
 NOT_APPLICABLE = [dict(property_id=p, reason="check not built yet in this session (work in progress; see DESIGN.md section 8 build order)") for p in
-    ["C02","C05","C06","C07","C08","C09","C11","C12","C13","C14","C15","C16","C18"]]
+    ["C02","C05","C06","C07","C08","C09","C11","C12","C13","C14","C16","C18"]]
